@@ -258,6 +258,11 @@ func TestPoisonStandAlone(t *testing.T) {
 		}
 		calls := 0
 		msg := c.Msg.Msg()
+		if rapid.IntRange(0, 3).Draw(t, "messageContextAlreadyEnded") == 0 {
+			cctx, ccancel := context.WithCancel(context.Background())
+			ccancel()
+			msg.SetContext(cctx)
+		}
 		gotOuts, gotErr := mw(func(m *message.Message) ([]*message.Message, error) {
 			calls++
 			if m != msg {
@@ -357,13 +362,40 @@ func TestPoisonInRouter(t *testing.T) {
 			calls++
 			return e
 		})
+		// the router-level poison queue serves every handler of the router: another handler (other name, topic, subscriber)
+		// may have poisoned a message through the same middleware value before
+		otherSub := lib.NewScriptSub("other-subscriber")
+		router.AddNoPublisherHandler(hname+"-other", "other-topic", otherSub, func(m *message.Message) error {
+			return stderrors.New("the other handler fails")
+		})
 		go router.Run(context.Background())
 		select {
 		case <-router.Running():
 		case <-time.After(lib.Live):
 			t.Fatalf("harness: router did not start")
 		}
+		before := 0
+		if c.Filter.Kind < 8 && rapid.Bool().Draw(t, "otherHandlerPoisonedAMessageBefore") {
+			wasFailing := c.PubFails
+			c.PubFails = false
+			wm := message.NewMessage("other-message", []byte("x"))
+			d = &lib.Delivery{Msg: wm}
+			wd, ok := otherSub.Subs()[0].Emit(wm, "w", 0, lib.Live)
+			if !ok {
+				t.Fatalf("harness: router did not take the other handler's message")
+			}
+			wd.Wait(2 * lib.Live)
+			c.PubFails = wasFailing
+			before = len(pub.Calls())
+			inside = nil
+		}
 		msg := c.Msg.Msg()
+		if rapid.IntRange(0, 3).Draw(t, "messageContextAlreadyEnded") == 0 {
+			// a message whose context is over by the time its handler fails is a failed message like any other
+			cctx, ccancel := context.WithCancel(context.Background())
+			ccancel()
+			msg.SetContext(cctx)
+		}
 		if rapid.Bool().Draw(t, "contextFromSameNamedHandlerElsewhere") {
 			// the message arrives with the context of a handler of the same name in another router
 			// (a relay that keeps the context): the poison metadata must still name THIS handler's topic and subscriber
@@ -386,7 +418,7 @@ func TestPoisonInRouter(t *testing.T) {
 		case <-time.After(lib.Live):
 			lib.Count("router_close_slow", 1)
 		}
-		pcs := pub.Calls()
+		pcs := pub.Calls()[before:]
 		poisoned := poisonedBy(c, sf, e, len(pcs))
 		wantAck := e == nil || (poisoned && !c.PubFails)
 		if acked != wantAck {
